@@ -92,7 +92,7 @@ TARGET_STRATA = {
     "temperature_stress": _STRESS, "growing_degree_day": _STRESS,
     "check_groundwater_table": _GW, "capillary_rise": _GW, "groundwater_inflow": _GW,
     "clock": _CLOCK, "solution_single_time_step": _CLOCK + _POND + _NETIRR,
-    "reset_initial_conditions": _SEASONS, "soil_profile": _SOIL, "init_wc": _SOIL + _GW,
+    "fco2_reset": _SEASONS, "reset_calendar": _SEASONS, "reset_state": _SEASONS, "crop_calendar": _SEASONS, "soil_profile": _SOIL, "init_wc": _SOIL + _GW,
     "water_day": _POND + _NETIRR + _GW, "full_day": _POND + _NETIRR + _STRESS + _CLOCK,
 }
 
